@@ -692,6 +692,12 @@ fn exec_any(w: &World, st: &[String]) -> String {
         o
     } else {
         match st[0].as_str() {
+            "klossy" => guarded(|| match FLAVOUR {
+                "digraph" => crate::lossy_digraph(),
+                "sync_digraph" => crate::lossy_sync_digraph(),
+                "ungraph" => crate::lossy_ungraph(),
+                _ => crate::lossy_sync_ungraph(),
+            }),
             "scr" => {
                 w.script.borrow_mut().push((pusize(&st[1]), st[2..].to_vec()));
                 "ok".to_string()
